@@ -326,7 +326,9 @@ func (m *machine) tssInject(t *rapid.T) {
 	bz, err := p.ABIPack()
 	kit.Must(err, "pack packet")
 	tr := bridge.Triple{Src: bridge.TSSName, Dst: c.ChainID, Seq: seq}
-	msg := packettypes.NewMsgRecvPacket(bz, []byte{}, bridge.H(0, 1), w.TSS.Acc)
+	// the proof field carries no meaning on a TSS-secured path: whatever it holds, the TSS account is authorised
+	proofField := [][]byte{{}, []byte(w.TSS.Acc.String()), []byte("junk"), []byte(w.Outsider.Acc.String())}[rapid.IntRange(0, 3).Draw(t, "tssProofField")]
+	msg := packettypes.NewMsgRecvPacket(bz, proofField, bridge.H(0, 1), w.TSS.Acc)
 	balB := c.ERC20Balance(w.TTok[ci], recvr.Addr)
 	o := w.DeliverDumped(ci, w.TSS, msg)
 	payload := fmt.Sprintf("%d/%s", amt, recvr.Addr.Hex())
